@@ -530,6 +530,9 @@ func (r *runner) runWF() {
 	cs = append(cs, IdEdgeCases(reg)...)
 	cs = append(cs, StringClassCases(reg, r.thorough)...)
 	cs = append(cs, MutationCases(reg, false)...)
+	if r.thorough {
+		cs = append(cs, DeepMutationCases(reg, 1)...) // (quick tier: in rpcsurvive)
+	}
 	cs = append(cs, OtherMessages(reg)...)
 	cs = append(cs, GarbageCases(reg, r.rng, r.thorough)...)
 	cs = append(cs, FuzzCases(reg, r.rng, r.fuzzN())...)
@@ -1038,6 +1041,7 @@ func (r *runner) surviveCases(reg *Registry) []Case {
 	cs = append(cs, ValidCases(reg, r.rng, false)...)
 	cs = append(cs, IdEdgeCases(reg)...)
 	cs = append(cs, StringClassCases(reg, r.thorough)...)
+	cs = append(cs, DeepMutationCases(reg, 1)...)
 	r.rng.Shuffle(len(cs), func(i, j int) { cs[i], cs[j] = cs[j], cs[i] })
 	return cs
 }
@@ -1072,6 +1076,10 @@ func (r *runner) runSurvive(only string) {
 		}
 		r.manyInFlight(k)
 		r.peerLeavesMidCall(k)
+		if k == "st-json" || k == "sse" || k == "stdio" {
+			r.malformedResponses(k)
+		}
+		r.handshakeStorm(k)
 	}
 }
 
